@@ -908,6 +908,8 @@ def _ratfun(t):
             return rn, rd
     if k == z3.Z3_OP_TO_REAL:
         return t, z3.RealVal(1)
+    if k == z3.Z3_OP_UNINTERPRETED:
+        return t, z3.RealVal(1)        # application of an uninterpreted function: an atom
     raise _NotRational(str(t.decl()))
 
 
@@ -1232,7 +1234,83 @@ class SymCtx:
                 self._fact((a < xt) == (ra < r))
                 self._fact((a == xt) == (ra == r))
             apps.append((xt, r))
+            # EXP(LOG(y)) = y for LOG applications seen so far
+            for a, ra in self.uf_apps.get('LOG', []):
+                if ra.eq(xt):
+                    self._fact(r == a)
         return SymX(r)
+
+    def exp_arg(self, e):
+        """The argument x of the EXP application e = EXP(x) (None if e is not one)."""
+        if isinstance(e, SymX):
+            for a, ra in self.uf_apps.get('EXP', []):
+                if ra.eq(e.t):
+                    return SymX(a)
+        return None
+
+    def cancel_explog(self, t):
+        """Rewrite EXP(LOG(u)) -> u and LOG(EXP(u)) -> u inside the z3 term t (instances of the stated axioms)."""
+        subs = []
+        logs = self.uf_apps.get('LOG', [])
+        exps = self.uf_apps.get('EXP', [])
+        for a, r in exps:
+            for la, lr in logs:
+                if lr.eq(a):
+                    subs.append((r, la))
+        for a, r in logs:
+            for ea, er in exps:
+                if er.eq(a):
+                    subs.append((r, ea))
+        for _ in range(3):
+            if not subs:
+                break
+            t = z3.substitute(t, *subs)
+        return t
+
+    def exp_of(self, term):
+        """For a term that is a sum of +-LOG(args) (and numerals n*LOG-free parts are not allowed), return the
+        rational function P with term == LOG(P), using log(a)+log(b)=log(ab), log(a)-log(b)=log(a/b) (all LOG
+        applications were created on their x > 0 branch).  EXP(y) occurring inside arguments stay as they are."""
+        t = _simp(self.cancel_explog(rterm(term)))
+        logs = {str(self.cancel_explog(r)): self.cancel_explog(a) for a, r in self.uf_apps.get('LOG', [])}
+        num, den = z3.RealVal(1), z3.RealVal(1)
+
+        def walk(u, sign):
+            nonlocal num, den
+            if str(u) in logs and u.decl().name() == 'LOG':
+                if sign > 0:
+                    num = num * logs[str(u)]
+                else:
+                    den = den * logs[str(u)]
+                return
+            k = u.decl().kind()
+            ch = u.children()
+            if k == z3.Z3_OP_ADD:
+                for c in ch:
+                    walk(c, sign)
+                return
+            if k == z3.Z3_OP_SUB:
+                walk(ch[0], sign)
+                for c in ch[1:]:
+                    walk(c, -sign)
+                return
+            if k == z3.Z3_OP_UMINUS:
+                walk(ch[0], -sign)
+                return
+            if k == z3.Z3_OP_MUL and len(ch) == 2 and z3.is_rational_value(ch[0]):
+                f = Fraction(ch[0].numerator_as_long(), ch[0].denominator_as_long())
+                if f == -1:
+                    walk(ch[1], -sign)
+                    return
+                if f.denominator == 1 and abs(f) <= 4:
+                    for _ in range(abs(int(f))):
+                        walk(ch[1], sign if f > 0 else -sign)
+                    return
+            if z3.is_rational_value(u) and u.numerator_as_long() == 0:
+                return
+            raise _NotRational('not a combination of logarithms: %s' % str(u)[:80])
+        walk(t, 1)
+        return SymX(num / den)
 
     def uf_log(self, x):
         f = self.uf('LOG', 1)
@@ -1456,8 +1534,8 @@ class SymCtx:
         an ordinary solver query when the normal form is not 0 (then a counterexample is searched)."""
         t0 = time.time()
         try:
-            nl, dl = _ratfun(_simp(rterm(lhs)))
-            nr, dr = _ratfun(_simp(rterm(rhs)))
+            nl, dl = _ratfun(_simp(self.cancel_explog(rterm(lhs))))
+            nr, dr = _ratfun(_simp(self.cancel_explog(rterm(rhs))))
             d = z3.simplify(nl * dr - nr * dl, som=True, som_blowup=10000000)
             self.n_claim_queries += 1
             if z3.is_rational_value(d) and d.numerator_as_long() == 0:
@@ -1604,6 +1682,18 @@ class ConcreteCtx:
 
     def sqrt_arg(self, r):
         return r * r
+
+    def exp_arg(self, e):
+        return math.log(e) if e > 0 else -INF
+
+    def exp_of(self, term):
+        return math.exp(term)
+
+    def uf_exp(self, x):
+        return math.exp(x)
+
+    def uf_log(self, x):
+        return math.log(x)
 
     def claim(self, name, c, abstract=None, hyps=()):
         if isinstance(c, (list, tuple)):
